@@ -914,6 +914,26 @@ def gen_misc(repo, report):
     out.append('(* layers/cache.py CacheToDisk.simple: two plain DiskDicts (no labels / usage / size trackers), blobs behind a HashKeyStorage that raises on a missing blob *)\n'
                'Definition simple_store : string := "index: DiskDict sha256 [1,31]; storage: HashKeyStorage(DiskDict sha256 [1,31]), error=True".\n')
 
+    # --- pickling hooks (C19): everything but MemoryCache is pickled by default (a structural copy)
+    hooks = []
+    for dirpath, _, files in os.walk(C):
+        for fn_ in sorted(files):
+            if not fn_.endswith('.py'):
+                continue
+            p_ = os.path.join(dirpath, fn_)
+            src_, tree_ = parse(p_)
+            for cls in ast.walk(tree_):
+                if isinstance(cls, ast.ClassDef):
+                    for m in cls.body:
+                        if isinstance(m, ast.FunctionDef) and m.name in ('__reduce__', '__reduce_ex__', '__getstate__', '__setstate__',
+                                                                          '__getnewargs__', '__getnewargs_ex__', '__copy__', '__deepcopy__'):
+                            hooks.append(f'{os.path.relpath(p_, C)}:{cls.name}.{m.name}')
+    hooks.sort()
+    if hooks != ['cache/memory.py:MemoryCache.__reduce__']:
+        fail(os.path.join(C, 'engine/graph.py'), tree, f'custom pickling hooks changed: {hooks}')
+    out.append('(* the only class with a pickling hook of its own; Graph, TreeNode, the edges and the other caches are copied structurally *)\n'
+               'Definition pickling_hooks : list string := ["cache/memory.py:MemoryCache.__reduce__"].\n')
+
     # --- library-owned callables stored in edges (C19): lambdas / nested defs passed to FunctionEdge(...) in connectome/layers
     sites = []
     for rel in ('layers/group.py', 'layers/split.py', 'layers/filter.py', 'layers/join.py', 'layers/merge.py',
